@@ -630,12 +630,76 @@ fn sweep_increments(ctx: &Ctx, rep: &mut Report, props: &[&'static str]) {
     rep.subruns.push(json!({"engine": "E2-sweep", "what": "complete walks through attack, decay and release at selected increments", "configs": configs.iter().map(|c| json!({"fs": c.0, "T": c.1, "label": c.2})).collect::<Vec<_>>(), "levels": 14}));
 }
 
+/// (M) events at a lattice of positions inside slow phases: for every timed phase, 14 levels, several sample rates
+/// and a lattice of positions inside the phase, one event (gate_on, gate_off, two time changes, two sustain
+/// changes, or a pair of them) is applied and the envelope is then ticked through to rest, all oracles running.
+fn sweep_mid_phase_events(ctx: &Ctx, rep: &mut Report, props: &[&'static str]) {
+    let thorough = ctx.tier.is_thorough();
+    let configs: Vec<(f32, f32)> = if thorough { vec![(1000.0, 0.5), (44100.0, 0.02), (48000.0, 0.01), (192000.0, 0.004), (8000.0, 0.1), (22050.0, 0.03), (100.0, 3.0)] } else { vec![(1000.0, 0.3), (44100.0, 0.01), (192000.0, 0.002)] };
+    let npos: u64 = if thorough { 48 } else { 16 };
+    let events: Vec<Vec<String>> = vec![
+        vec!["gate_on".into()],
+        vec!["gate_off".into()],
+        vec!["gate_off".into(), "gate_on".into()],
+        vec!["sustain:0.9".into()],
+        vec!["sustain:0.05".into(), "gate_on".into()],
+        vec!["sustain:0.6".into(), "gate_off".into()],
+        vec!["attack:0.05".into(), "decay:0.05".into(), "release:0.05".into()],
+        vec!["attack:0.0013".into(), "decay:0.0013".into(), "release:0.0013".into()],
+        vec!["gate_on".into(), "tick".into(), "gate_off".into(), "tick".into(), "gate_on".into()],
+    ];
+    let levels: Vec<f32> = if thorough { LEVELS.to_vec() } else { vec![0.0, 0.001, 0.25, 0.5, 0.9, 1.0] };
+    let jobs = configs.len() as u64 * 3 * levels.len() as u64 * npos * events.len() as u64;
+    let cr = &configs;
+    let er = &events;
+    let lr = &levels;
+    let pv: Vec<&'static str> = props.to_vec();
+    let pr = &pv;
+    par_ranges(ctx, rep, jobs, 2048, |_, lo, hi, lc| {
+        for j in lo..hi {
+            let mut x = j;
+            let ev = &er[(x % er.len() as u64) as usize];
+            x /= er.len() as u64;
+            let pos = x % npos;
+            x /= npos;
+            let lv = lr[(x % lr.len() as u64) as usize];
+            x /= lr.len() as u64;
+            let phase = [ATTACK, DECAY, RELEASE][(x % 3) as usize];
+            x /= 3;
+            let (fs, t) = cr[x as usize];
+            let mut m = AdsrM::new(fs, vec![], vec![]);
+            let mut script: Vec<String> = Vec::new();
+            if !prelude(&mut m, &mut script, phase, lv, pr, lc) {
+                continue;
+            }
+            let total = (t as f64 * fs as f64) as u64;
+            // positions spread over the phase, not aligned with table cells
+            let n = 1 + (total * (2 * pos + 1)) / (2 * npos) + (pos % 3);
+            let mut ops = vec![phase_time_op(phase, t), format!("tick*{}", n.min(total + 2))];
+            ops.extend(ev.iter().cloned());
+            // run to the end of everything: remaining phases at the configured times
+            ops.push(format!("tick*{}", 2 * total + 40));
+            ops.push("gate_off".into());
+            ops.push(format!("tick*{}", total + (0.06 * fs as f64) as u64 + 40));
+            if !drive(&mut m, &mut script, &ops, pr, lc) {
+                continue;
+            }
+            lc.count("mid_phase_event_runs", 1);
+            if m.m.phase != REST {
+                lc.count("mid_phase_event_runs_not_at_rest_at_the_end", 1);
+            }
+        }
+    });
+    rep.subruns.push(json!({"engine": "E2-sweep", "what": "one event (or event pair) applied at a lattice of positions inside each slow phase, then run to rest", "configs": configs.iter().map(|c| json!({"fs": c.0, "T": c.1})).collect::<Vec<_>>(), "positions_per_phase": npos, "events": events, "levels": levels.len(), "runs": jobs}));
+}
+
 fn sweeps(ctx: &Ctx, rep: &mut Report, props: &[&'static str]) {
     sweep_increments(ctx, rep, props);
+    sweep_mid_phase_events(ctx, rep, props);
     if ctx.tier.is_thorough() {
         sweep_all_positions(ctx, rep, props);
     }
-    let n = rep.counters.get("positions_visited").copied().unwrap_or(0);
+    let n = rep.counters.get("ticks").copied().unwrap_or(0);
     rep.states += n;
     rep.transitions += n;
     rep.traces += n;
@@ -781,6 +845,7 @@ pub fn c02(ctx: &Ctx) -> Report {
         key_selfcheck(AdsrM::new(1000.0, vec![0.001, 0.003], vec![0.0, 0.5]), 300_000, &mut rep, "adsr history machine");
     }
     sweep_increments(ctx, &mut rep, &["C02"]);
+    sweep_mid_phase_events(ctx, &mut rep, &["C02"]);
     rep.nontrivial = rep.counters.get("phases_timed").copied().unwrap_or(0) + rep.counters.get("phase_ends_after_more_than_one_tick").copied().unwrap_or(0);
     rep.require_nonzero("phases_shorter_than_one_sample");
     rep.require_nonzero("phase_ends_after_more_than_one_tick");
